@@ -30,6 +30,7 @@ use crate::{Error, Result, StorageConfig};
 
 use arrow_array::RecordBatch;
 use object_store::ObjectStore;
+use std::collections::BTreeSet;
 use std::sync::atomic::{AtomicBool, AtomicU64, Ordering};
 use std::sync::Arc;
 use std::time::Duration;
@@ -122,10 +123,47 @@ pub struct Ingester {
     last_wal_seq: AtomicU64,
     /// Last WAL sequence number that was successfully flushed to S3
     last_flushed_seq: AtomicU64,
+    /// Which logged entries are not in a registered chunk yet
+    wal_progress: parking_lot::Mutex<WalProgress>,
+    /// Buffers whose flush failed, with their WAL sequence numbers; retried by the next flush
+    failed_flushes: parking_lot::Mutex<Vec<(Vec<RecordBatch>, Vec<u64>)>>,
     /// Cancellation token for graceful shutdown
     shutdown: CancellationToken,
     /// Bounded clock for skew-safe timestamp operations
     clock: Arc<BoundedClock>,
+}
+
+/// Tracks which WAL entries still have to be kept.
+///
+/// Recovery skips every entry at or below the persisted flushed sequence, so that mark may
+/// only advance past an entry once its rows are in a registered chunk. Flushes complete out
+/// of order (a write can be logged while another buffer is being uploaded, a flush can fail
+/// after its buffer was taken), hence the mark is derived from the set of entries that are
+/// still unflushed rather than from the highest sequence number logged so far.
+#[derive(Debug, Default)]
+struct WalProgress {
+    /// Logged entries whose rows are not in a registered chunk yet
+    pending: BTreeSet<u64>,
+    /// Highest sequence number logged so far
+    last: u64,
+}
+
+impl WalProgress {
+    fn logged(&mut self, seq: u64) {
+        self.pending.insert(seq);
+        self.last = self.last.max(seq);
+    }
+
+    /// The entries no longer have to be kept; returns the new safe flushed mark
+    fn done(&mut self, seqs: &[u64]) -> u64 {
+        for seq in seqs {
+            self.pending.remove(seq);
+        }
+        match self.pending.first() {
+            Some(oldest) => oldest - 1,
+            None => self.last,
+        }
+    }
 }
 
 impl Ingester {
@@ -161,6 +199,8 @@ impl Ingester {
             wal_warned: AtomicBool::new(false),
             last_wal_seq: AtomicU64::new(0),
             last_flushed_seq: AtomicU64::new(0),
+            wal_progress: parking_lot::Mutex::new(WalProgress::default()),
+            failed_flushes: parking_lot::Mutex::new(Vec::new()),
             shutdown: CancellationToken::new(),
             clock: Arc::new(BoundedClock::default()),
         }
@@ -198,6 +238,8 @@ impl Ingester {
             wal_warned: AtomicBool::new(false),
             last_wal_seq: AtomicU64::new(0),
             last_flushed_seq: AtomicU64::new(0),
+            wal_progress: parking_lot::Mutex::new(WalProgress::default()),
+            failed_flushes: parking_lot::Mutex::new(Vec::new()),
             shutdown: CancellationToken::new(),
             clock: Arc::new(BoundedClock::default()),
         }
@@ -227,10 +269,21 @@ impl Ingester {
             if !entries.is_empty() {
                 let mut replayed = 0u64;
                 let mut max_seq = flushed_seq;
+                {
+                    // Every unflushed entry is known up front, so a flush during replay cannot
+                    // move the flushed mark past entries that are still to be replayed.
+                    let mut progress = self.wal_progress.lock();
+                    for entry in &entries {
+                        progress.logged(entry.seq);
+                    }
+                }
                 for entry in &entries {
                     match entry.batches() {
                         Ok(batches) => {
-                            for batch in batches {
+                            let last_index = batches.len().saturating_sub(1);
+                            for (index, batch) in batches.into_iter().enumerate() {
+                                // the entry counts as flushed once its last batch is
+                                let batch_seq = (index == last_index).then_some(entry.seq);
                                 let mut pending_batch = Some(batch);
                                 loop {
                                     let mut buffer = self.buffer.write().await;
@@ -240,21 +293,20 @@ impl Ingester {
 
                                     // Keep recovery buffer schema-homogeneous so future flushes do not fail.
                                     if !buffer.schema_compatible(incoming) {
-                                        let existing = buffer.take();
+                                        let (existing, seqs) = buffer.take_with_seqs();
                                         drop(buffer);
-                                        // Advance WAL seq before flush so flush_batches persists
-                                        // the correct sequence. Without this, a crash after the
-                                        // flush but before line `self.last_wal_seq.store(max_seq)`
-                                        // would replay already-flushed entries on next recovery.
                                         self.last_wal_seq.store(max_seq, Ordering::Release);
-                                        self.flush_batches(existing).await?;
+                                        if let Err(e) = self.flush_batches(existing, seqs).await {
+                                            // kept for the next flush; its entries stay in the WAL
+                                            warn!(error = %e, "Flush during WAL recovery failed, will be retried");
+                                        }
                                         continue;
                                     }
 
                                     let incoming = pending_batch.take().ok_or_else(|| {
                                         Error::Internal("Missing pending batch".to_string())
                                     })?;
-                                    buffer.append(incoming)?;
+                                    buffer.append_with_seq(incoming, batch_seq)?;
                                     break;
                                 }
                                 replayed += 1;
@@ -265,6 +317,7 @@ impl Ingester {
                         }
                         Err(e) => {
                             warn!(seq = entry.seq, error = %e, "Skipping corrupt WAL entry during recovery");
+                            self.wal_progress.lock().done(&[entry.seq]);
                         }
                     }
                 }
@@ -322,10 +375,13 @@ impl Ingester {
             }
 
             // Normal single-write path
-            if let Some(wal) = self.wal.as_ref() {
+            let wal_seq = if let Some(wal) = self.wal.as_ref() {
+                // (the WAL lock is held until the end of the match, so entries are recorded
+                // as unflushed in the order in which they were logged)
                 let seq = match wal.lock().await.append(&batch).await {
                     Ok(seq) => {
                         telemetry::record_wal_operation("append", "ok");
+                        self.wal_progress.lock().logged(seq);
                         seq
                     }
                     Err(e) => {
@@ -338,6 +394,7 @@ impl Ingester {
                 self.last_wal_seq.store(seq, Ordering::Release);
                 #[cfg(feature = "verif-hooks")]
                 crate::verif_hooks::pause("write:after_seq_store").await;
+                Some(seq)
             } else if self.config.wal.enabled {
                 telemetry::record_wal_operation("append", "error");
                 if !self.wal_warned.swap(true, Ordering::Relaxed) {
@@ -345,9 +402,13 @@ impl Ingester {
                         "WAL is enabled but not initialized - call ensure_wal() for crash durability"
                     );
                 }
-            }
+                None
+            } else {
+                None
+            };
 
-            self.append_to_buffer_and_maybe_flush(batch, batch_size).await?;
+            self.append_to_buffer_and_maybe_flush(batch, batch_size, wal_seq)
+                .await?;
 
             // Record write metrics for hot shard detection
             let write_latency = start_time.elapsed();
@@ -371,10 +432,11 @@ impl Ingester {
             .await?
             .ok_or_else(|| Error::Internal("Split state disappeared".to_string()))?;
 
-        if let Some(wal) = self.wal.as_ref() {
+        let wal_seq = if let Some(wal) = self.wal.as_ref() {
             let seq = match wal.lock().await.append(&batch).await {
                 Ok(seq) => {
                     telemetry::record_wal_operation("append", "ok");
+                    self.wal_progress.lock().logged(seq);
                     seq
                 }
                 Err(e) => {
@@ -383,6 +445,7 @@ impl Ingester {
                 }
             };
             self.last_wal_seq.store(seq, Ordering::Release);
+            Some(seq)
         } else if self.config.wal.enabled {
             telemetry::record_wal_operation("append", "error");
             if !self.wal_warned.swap(true, Ordering::Relaxed) {
@@ -390,11 +453,18 @@ impl Ingester {
                     "WAL is enabled but not initialized - call ensure_wal() for crash durability"
                 );
             }
-        }
+            None
+        } else {
+            None
+        };
 
         // Write to old shard first (for consistency during transition)
-        self.append_to_buffer_and_maybe_flush(batch.clone(), batch.get_array_memory_size())
-            .await?;
+        self.append_to_buffer_and_maybe_flush(
+            batch.clone(),
+            batch.get_array_memory_size(),
+            wal_seq,
+        )
+        .await?;
 
         // Split batch by key range and write to new shards
         let (batch_a, batch_b) = self.split_batch_by_key(&batch, &split_state.split_point)?;
@@ -598,6 +668,7 @@ impl Ingester {
         &self,
         batch: RecordBatch,
         batch_size: usize,
+        wal_seq: Option<u64>,
     ) -> Result<()> {
         let mut pending_batch = Some(batch);
 
@@ -612,36 +683,70 @@ impl Ingester {
 
             // If schemas differ, flush current buffer before appending.
             if !buffer.schema_compatible(incoming) {
-                let existing = buffer.take();
+                let (existing, seqs) = buffer.take_with_seqs();
                 drop(buffer);
-                self.flush_batches(existing).await?;
+                if let Err(e) = self.flush_batches(existing, seqs).await {
+                    // the rejected write is not buffered, so its log entry need not be kept
+                    self.wal_progress.lock().done(wal_seq.as_slice());
+                    return Err(e);
+                }
                 continue;
             }
 
-            if buffer.size_bytes() + batch_size > self.config.max_buffer_size_bytes {
+            // buffers that wait for their flush to be retried occupy memory as well
+            let retained: usize = self
+                .failed_flushes
+                .lock()
+                .iter()
+                .flat_map(|(batches, _)| batches.iter())
+                .map(|batch| batch.get_array_memory_size())
+                .sum();
+            if buffer.size_bytes() + retained + batch_size > self.config.max_buffer_size_bytes {
                 telemetry::record_buffer_fullness_ratio(1.0);
+                self.wal_progress.lock().done(wal_seq.as_slice());
                 return Err(Error::BufferFull);
             }
 
             let incoming = pending_batch
                 .take()
                 .ok_or_else(|| Error::Internal("Missing pending batch".to_string()))?;
-            buffer.append(incoming)?;
+            buffer.append_with_seq(incoming, wal_seq)?;
             let max_buffer_size = self.config.max_buffer_size_bytes.max(1) as f64;
             telemetry::record_buffer_fullness_ratio(buffer.size_bytes() as f64 / max_buffer_size);
 
             if self.should_flush(&buffer) {
-                let batches = buffer.take();
+                let (batches, seqs) = buffer.take_with_seqs();
                 drop(buffer);
-                self.flush_batches(batches).await?;
+                self.flush_batches(batches, seqs).await?;
             }
 
             return Ok(());
         }
     }
 
-    /// Flush batches to object storage
-    async fn flush_batches(&self, batches: Vec<RecordBatch>) -> Result<()> {
+    /// Flush a taken buffer to object storage, after the buffers of earlier flushes that failed.
+    ///
+    /// A buffer whose flush fails is kept (with the WAL sequence numbers of its batches) and
+    /// flushed again by the next call, so acknowledged rows of other writers that happened to
+    /// sit in it are not dropped and the flushed mark never passes them.
+    async fn flush_batches(&self, batches: Vec<RecordBatch>, seqs: Vec<u64>) -> Result<()> {
+        let mut groups = std::mem::take(&mut *self.failed_flushes.lock());
+        if !batches.is_empty() {
+            groups.push((batches, seqs));
+        }
+
+        let mut first_error = None;
+        for (batches, seqs) in groups {
+            if let Err(e) = self.flush_group(&batches, &seqs).await {
+                self.failed_flushes.lock().push((batches, seqs));
+                first_error.get_or_insert(e);
+            }
+        }
+        first_error.map_or(Ok(()), Err)
+    }
+
+    /// Flush one schema-homogeneous group of batches to object storage
+    async fn flush_group(&self, batches: &[RecordBatch], seqs: &[u64]) -> Result<()> {
         if batches.is_empty() {
             return Ok(());
         }
@@ -702,11 +807,15 @@ impl Ingester {
             debug!("No topic broadcast subscribers: {}", e);
         }
 
-        // Truncate WAL after successful flush
+        // Truncate WAL after successful flush: everything up to the oldest entry that is still
+        // unflushed (buffered, being flushed by another task, or waiting for a retry)
         #[cfg(feature = "verif-hooks")]
         crate::verif_hooks::pause("flush:before_seq_load").await;
-        let flushed_up_to = self.last_wal_seq.load(Ordering::Acquire);
-        if flushed_up_to > 0 {
+        let flushed_up_to = self.wal_progress.lock().done(seqs);
+        let previous_mark = self
+            .last_flushed_seq
+            .fetch_max(flushed_up_to, Ordering::AcqRel);
+        if flushed_up_to > previous_mark {
             #[cfg(feature = "verif-hooks")]
             crate::verif_hooks::pause("flush:before_truncate").await;
             if let Some(wal) = self.wal.as_ref() {
@@ -716,8 +825,6 @@ impl Ingester {
                 }
                 telemetry::record_wal_operation("truncate", "ok");
             }
-            self.last_flushed_seq
-                .store(flushed_up_to, Ordering::Release);
             #[cfg(feature = "verif-hooks")]
             crate::verif_hooks::pause("flush:before_persist").await;
             if let Err(e) = persist_flushed_seq(&self.config.wal.wal_dir, flushed_up_to) {
@@ -749,32 +856,32 @@ impl Ingester {
                     let should_flush = {
                         let buffer = self.buffer.read().await;
                         let last_flush = self.last_flush.read().await;
-                        !buffer.is_empty() && last_flush.elapsed() >= self.config.flush_interval
+                        let retry_pending = !self.failed_flushes.lock().is_empty();
+                        (!buffer.is_empty() || retry_pending)
+                            && last_flush.elapsed() >= self.config.flush_interval
                     };
 
                     if should_flush {
-                        let batches = {
+                        let (batches, seqs) = {
                             let mut buffer = self.buffer.write().await;
-                            buffer.take()
+                            buffer.take_with_seqs()
                         };
                         #[cfg(feature = "verif-hooks")]
                         crate::verif_hooks::pause("timer:after_take").await;
 
-                        if let Err(e) = self.flush_batches(batches).await {
+                        if let Err(e) = self.flush_batches(batches, seqs).await {
                             error!("Flush timer failed: {}", e);
                         }
                     }
                 }
                 _ = self.shutdown.cancelled() => {
                     info!("Flush timer shutting down, flushing remaining data");
-                    let batches = {
+                    let (batches, seqs) = {
                         let mut buffer = self.buffer.write().await;
-                        buffer.take()
+                        buffer.take_with_seqs()
                     };
-                    if !batches.is_empty() {
-                        if let Err(e) = self.flush_batches(batches).await {
-                            error!("Final flush failed during shutdown: {}", e);
-                        }
+                    if let Err(e) = self.flush_batches(batches, seqs).await {
+                        error!("Final flush failed during shutdown: {}", e);
                     }
                     break;
                 }
